@@ -2,6 +2,7 @@
 from __future__ import annotations
 
 import datetime as dt
+import random
 from collections import Counter
 from fractions import Fraction
 
@@ -30,16 +31,26 @@ def plan(tier, seed):
     else:
         n = {"plain": 900, "splits": 900, "capital": 500, "dense": 900}
     shards = [{"kind": "edges", "seed": seed, "part": i, "parts": 16} for i in range(16)]
+    if tier == "quick":
+        # a second, seed-chosen block of four tax years somewhere in 1900..2100 (century leap-year rules, other weekdays)
+        y0 = random.Random(f"C01:edges:{seed}").randint(1900, 2096)
+        shards += [{"kind": "edges", "seed": seed, "part": i, "parts": 8, "from": f"{y0}-04-06", "to": f"{y0 + 4}-04-05"}
+                   for i in range(8)]
+    else:
+        # every sale date of tax years 1900/01 .. 2099/2100
+        for y0 in range(1900, 2100, 10):
+            shards += [{"kind": "edges", "seed": seed, "part": i, "parts": 4, "from": f"{y0}-04-06",
+                        "to": f"{y0 + 10}-04-05"} for i in range(4)]
     for cls, k in n.items():
         for i in range(k):
             shards.append({"kind": "random", "cls": cls, "seed": seed, "shard": i, "n": per})
     return shards
 
 
-def edge_cases(part, parts):
-    """Every sale date D in 2019-04-06..2025-04-05 x acquisition offset in {0,1,29,30,31}."""
-    D = dt.date(2019, 4, 6)
-    end = dt.date(2025, 4, 5)
+def edge_cases(part, parts, first="2019-04-06", last="2025-04-05"):
+    """Every sale date D in first..last (default 2019-04-06..2025-04-05) x acquisition offset in {0,1,29,30,31}."""
+    D = dt.date.fromisoformat(first)
+    end = dt.date.fromisoformat(last)
     i = 0
     out = []
     while D <= end:
@@ -181,7 +192,8 @@ def run_cases(cases):
 
 def run_shard(desc):
     if desc["kind"] == "edges":
-        return run_cases(edge_cases(desc["part"], desc["parts"]))
+        return run_cases(edge_cases(desc["part"], desc["parts"], desc.get("from", "2019-04-06"),
+                                    desc.get("to", "2025-04-05")))
     rng = rng_for(PROP, desc["seed"], desc["cls"], desc["shard"])
     opts = Opts(**CLASSES[desc["cls"]])
     cases = [gen_ledger(rng, opts) for _ in range(desc["n"])]
